@@ -8,6 +8,7 @@ REGISTRY = {
     "C05": "engines.dimwise_checks",
     "C06": "engines.dimwise_checks",
     "C07": "engines.extendsplit_checks",
+    "C12": "engines.function_sim",
     "C13": "engines.stop_checks",
     "C14": "engines.resume_checks",
 }
